@@ -407,6 +407,40 @@ def compute_domains_gcc(domains: NDArray, parameters: NDArray) -> int:
     :param parameters: there are 1 + 2 * m parameters:
     the first domain value (v_0), then the m lower bounds, then the m upper bounds (capacities)
     """
+    m = (len(parameters) - 1) // 2  # number of values
+    capacities = parameters[1 + m :]
+    if np.all(capacities > 0):
+        return filter_domains_gcc(domains, parameters)
+    # The algorithm of the paper expects positive capacities: a value with a null capacity cannot be taken,
+    # the domains are filtered on the values that are left (renumbered from 0) and the new bounds are translated back.
+    values = np.flatnonzero(capacities > 0)  # the values (relative to v_0) that can be taken
+    if len(values) == 0:
+        return PROP_INCONSISTENCY
+    n = len(domains)
+    new_parameters = np.zeros(1 + 2 * len(values), dtype=np.int32)
+    new_parameters[1 : 1 + len(values)] = parameters[1 : 1 + m][values]
+    new_parameters[1 + len(values) :] = capacities[values]
+    new_domains = np.empty((n, 2), dtype=np.int32)
+    for i in range(n):
+        new_domains[i, MIN] = np.searchsorted(values, domains[i, MIN] - parameters[0], side="left")
+        new_domains[i, MAX] = np.searchsorted(values, domains[i, MAX] - parameters[0], side="right") - 1
+        if new_domains[i, MIN] > new_domains[i, MAX]:
+            return PROP_INCONSISTENCY
+    if filter_domains_gcc(new_domains, new_parameters) == PROP_INCONSISTENCY:
+        return PROP_INCONSISTENCY
+    for i in range(n):
+        domains[i, MIN] = values[new_domains[i, MIN]] + parameters[0]
+        domains[i, MAX] = values[new_domains[i, MAX]] + parameters[0]
+    return PROP_CONSISTENCY
+
+
+@njit(cache=True)
+def filter_domains_gcc(domains: NDArray, parameters: NDArray) -> int:
+    """
+    Filters the domains, all the capacities are expected to be positive.
+    :param domains: the domains of the variables
+    :param parameters: the parameters of the propagator
+    """
     n = len(domains)
     m = (len(parameters) - 1) // 2  # number of values
     bounds_nb = 2 * n + 2
